@@ -95,6 +95,7 @@ class Reschedule(Cell):
         with world.notrace():
             project = world.parse(self.text)
             info = world.prepare(project)
+        world.set_symbolic_granularity(project, a[len(self.names)], self.spec.resolution)
         inject(self.spec, project, vals, self.markers, [0])
         world.run_scenario(project, 0)
         o1 = world.observe(project, 0, info)
